@@ -1,12 +1,14 @@
-(* Entry point of stream "peers" (harness/c01/peers.go): case = ((universe per node, rankings), trace). *)
+(* Entry point of stream "peers" (harness/c01/peers.go): case = (((base, prefix length, gateway) per node,
+   rankings), trace); every node's universe is computed as pool.generateAvailableIPs does (FreeList.local_univ). *)
 From Coq Require Import NArith List Bool.
 From Verif Require Import Base.Check Model.PoolMap Model.PoolSpec Model.FreeList Model.PeerPools.
 Import ListNotations.
 Local Open Scope N_scope.
 
-Definition run_peers_case := ((list (list N) * list (N * list N)) * list (pop * pout))%type.
+Definition run_peers_case := ((list (N * N * N) * list (N * list N)) * list (pop * pout))%type.
+Definition peers_univs (l : list (N * N * N)) : list (list N) := map (fun c => let '(b, ppl, gw) := c in local_univ b ppl gw) l.
 Definition run_peers (prop : N) (cs : list run_peers_case) : list (list N) :=
   if prop =? 5 then
     check_all pstepo paccept pout_eqb 1
-      (map (fun c : run_peers_case => (pp_init (fst (fst c)) (snd (fst c)), @nil N, snd c)) cs)
+      (map (fun c : run_peers_case => (pp_init (peers_univs (fst (fst c))) (snd (fst c)), @nil N, snd c)) cs)
   else [].
